@@ -543,7 +543,7 @@ pub fn run(a: &Args, rep: &mut Report) {
         constructors(rep, (1u64 << k).wrapping_sub(1), "pow2-1", &mut r);
         constructors(rep, !(1u64 << k), "walk0", &mut r);
     }
-    let n = a.budget(2_000_000, 400_000_000);
+    let n = a.budget(3_000_000, 400_000_000);
     for i in 0..n {
         let (x, c) = gen::u64_edge(&mut r);
         constructors(rep, x, c, &mut r);
